@@ -870,6 +870,20 @@ def main():
             play(root, tmp, {}, [C("", ["xxh64"]), ("W", "A/a.txt", "CHANGED"), C("", ["md5"], ["-n"])], clock)
             query_world(run, wid, root, tmp, run.tier)
             shutil.rmtree(tmp, ignore_errors=True)
+        # ---- a manifest far beyond one parser block (lxml feeds iterparse in 32 KiB blocks): 300 files x 4 digests, all asked at once
+        wid = "big/0/manifest-over-32KiB"
+        if run.only is None or run.only.startswith(wid + "/"):
+            tmp = os.path.join(run.tmp, "big")
+            root = os.path.join(tmp, "t")
+            clock.reset()
+            _GENS.clear()
+            big = {f"d{j:02d}/f{i:03d}.bin": f"{i}-{j}" for j in range(6) for i in range(50)}
+            play(root, tmp, big, [C("", ["md5", "sha1", "xxh128", "c4"]), C("", ["xxh64"], ["-n"])], clock)
+            files = sorted(big)
+            for part, sel in (("all", files), ("every-7th", files[::7])):
+                args = [root] + sum((["-sf", os.path.join(root, f)] for f in sel), [])
+                check_sf(run, f"{wid}/sf-{part}", ("big", part), root, sel, args, tmp)
+            shutil.rmtree(tmp, ignore_errors=True)
         if run.only is None or run.only.startswith(("nohistory/", "lookalike/")):
             nohistory_part(run, clock)
         if run.only is None or run.only.startswith("crash/"):
